@@ -863,3 +863,74 @@ def c03_neg(rp):
     got = C._unary_minus(x)
     want = -x if rp.get("clause") != "canary" else abs(x)
     return not _same(got, want), f"_unary_minus({x!r}) -> {got!r}"
+
+
+# ---------------------------------------------------------------- C01 (and the rate-level numeric replays)
+def _custom_gamma(c, k, mu, sigma_squared, team, rank):
+    return 0.25 + 0.1 * rank + 1.0 / k + 0.01 * abs(mu) / (1.0 + abs(mu)) + 0.5 * sigma_squared / (c * c)
+
+
+def _custom_gamma_spec(c, n, theta_i, s_i, i, rank_i):
+    return _custom_gamma(c, n, theta_i, s_i, None, rank_i)
+
+
+def close(a, b, rel=1e-9, abs_=1e-11):
+    return abs(a - b) <= max(abs_, rel * max(abs(a), abs(b)))
+
+
+def spec_rate_concrete(rp):
+    from pyvc.specs import weng_lin as WS
+    name = rp["model"]
+    p = {k: num(v) for k, v in rp["params"].items()}
+    tau = p["tau"] if rp.get("t") is None else num(rp["t"])
+    lim = bool(rp.get("limit", False))
+    X = WS.FloatX(wl_common())
+    teams = [[(num(q[0]), num(q[1])) for q in t] for t in rp["game"]]
+    return WS.rate_spec(name, teams, _vec(rp.get("ranks")), _vec(rp.get("scores")), p["beta"], p["kappa"], tau, lim, X,
+                        gamma=_custom_gamma_spec if rp.get("gamma") == "custom" else None,
+                        pair_scale=rp.get("pair_scale", 1))
+
+
+def real_rate_concrete(rp):
+    name = rp["model"]
+    kw = {"limit_sigma": bool(rp.get("limit", False))}
+    if rp.get("gamma") == "custom":
+        kw["gamma"] = _custom_gamma
+    m = mk_model(name, rp["params"], **kw)
+    ckw = {}
+    if rp.get("t") is not None:
+        ckw["tau"] = num(rp["t"])
+    return values(m.rate(mk_game(name, rp["game"]), ranks=_vec(rp.get("ranks")), scores=_vec(rp.get("scores")), **ckw))
+
+
+@checker("c01_rate")
+def c01_rate(rp):
+    got = real_rate_concrete(rp)
+    want = spec_rate_concrete(rp)
+    if rp.get("clause") == "canary":
+        want = [[(mu + 1e-6 * (1 + abs(mu)), sg) for (mu, sg) in t] for t in want]
+    for i, (tg, tw) in enumerate(zip(got, want)):
+        for j, ((m1, s1), (m2, s2)) in enumerate(zip(tg, tw)):
+            if not (close(m1, m2) and close(s1, s2)):
+                return True, (f"{rp['model']}.rate(ranks={_vec(rp.get('ranks'))}, scores={_vec(rp.get('scores'))}) player [{i}][{j}]: "
+                              f"code (mu, sigma) = ({m1!r}, {s1!r}); published update (pair scale {rp.get('pair_scale', 1)}) = ({m2!r}, {s2!r})")
+    return False, "code equals the published update to 1e-9 relative"
+
+
+def _std_params(rnd=None, tau=None):
+    return dict(mu=enc(25.0), sigma=enc(25 / 3), beta=enc(25 / 6), kappa=enc(1e-4), tau=enc(25 / 300 if tau is None else tau))
+
+
+@searcher("c01_rate")
+def c01_rate_search(rp, seed):
+    rnd = random.Random(seed)
+    sizes = [len(x) for x in rp["game"]]
+    for _ in range(200):
+        r2 = dict(rp, game=rand_game(rnd, sizes), params=_std_params(tau=rnd.choice([0.0, 25 / 300, 1.0])))
+        try:
+            bad, msg = c01_rate(r2)
+        except Exception:  # noqa: BLE001
+            continue
+        if bad:
+            return r2, msg
+    return None
